@@ -895,6 +895,16 @@ class Twin(object):
 
     def __init__(self, kind, config_name, seed):
         self.kind, self.config_name, self.seed = kind, config_name, seed
+        if kind in SHAPES:
+            # the other class of the same name is proxied FIRST, on a connection of its own (the proxy type built for it
+            # must not be handed to this sequence's target), so that a sequence replays on its own in a fresh process
+            other = sorted(SHAPES)[(sorted(SHAPES).index(kind) + 1 + seed % 3) % 4]
+            s0 = Session(config_name)
+            try:
+                p0 = s0.lend(SHAPES[other](seed))
+                outcome(lambda: p0.describe())
+            finally:
+                s0.close()
         self.sess = Session(config_name)
         self.target = make_object(kind, seed)
         self.twin = make_object(kind, seed)
